@@ -16,7 +16,7 @@ RULE = ('rows = 16 scope-type declarations (none + every non-empty ordered subse
         'x do_raise x check allows/denies/depends on a role x rule overridden in the policy file or not (under its own name, or - for policies registered as renamed - under the deprecated old name) x registered as RuleDefault / DocumentedRuleDefault x rule by name / check object x '
         '4 credential representations (dict, RequestContext, to_policy_values mapping, that mapping with the `system` '
         'spelling added on top; the `system` spelling exists only for dicts and the last form); four more blocks flip '
-        'enforce_scope on a LIVING enforcer (on->off->on, off->on->off, ...) and re-run the table after each flip x role content irrelevant to the check. Non-trivial = scope types declared; distinct = distinct row. Stratum `overlap`: two requests with differently scoped tokens on one enforcer at the same time (second one runs at sampled line boundaries of the first, deterministic scheduler), each decided as its row says.')
+        'enforce_scope on a LIVING enforcer (on->off->on, off->on->off, ...) and re-run the table after each flip x role content irrelevant to the check. Non-trivial = scope types declared; distinct = distinct row. Stratum `overlap`: two requests with differently scoped tokens on one enforcer at the same time (second one runs at sampled line boundaries of the first, deterministic scheduler), each decided as its row says. Stratum `alias` (counted apart, counters reference_*): registered policies whose check string - registered default, or policy-file override (own name / deprecated old name) of a default saying the opposite - is a reference to ANOTHER registered policy declaring different scope types (none included, both directions): bare `rule:x`, under not / and / or, and through a chain of two references; referenced policy allows / denies / depends on a role, itself overridden in the file or not; by name and as a check object; the gate is that of the scope types the enforced policy itself declares, and when it lets the request through the decision is that of the check (what the check of the referenced policy decides; references inside a check are not gated).')
 ASSUMPTIONS = ['oslo.context RequestContext.to_policy_values is the conversion the statement means',
                'the check decision is made independent of roles by using @ / ! (registered default) and the opposite '
                'constant as file override, so that a gate reading the wrong rule is visible']
@@ -24,7 +24,7 @@ LEVEL_TEXT = ('The statement quantifies over a finite product; all of it (about 
               'enforcer - complete for the stated table.')
 LEVEL_NOTE = 'trusted: the reference function (token scope derivation + membership) transcribed from the statement'
 PLAN = {'quick': dict(shards=4, wall=90), 'thorough': dict(shards=8, wall=300)}
-MIN = {'overlapping_evaluations': 200, 'option_flips_on_living_enforcer': 2, 'evaluations': 5000, 'gate_denied_rows': 500, 'allow_decisions': 500}
+MIN = {'reference_rows': 20000, 'reference_gate_denied_rows': 3000, 'reference_rows_where_referenced_scope_disagrees': 3000, 'overlapping_evaluations': 200, 'option_flips_on_living_enforcer': 2, 'evaluations': 5000, 'gate_denied_rows': 500, 'allow_decisions': 500}
 ANCHORS = ['oslo_policy.policy:Enforcer._enforce_scope', 'oslo_policy.policy:Enforcer.enforce',
            'oslo_policy.policy:Enforcer._map_context_attributes_into_creds']
 REQUIRED_ANCHORS = ['oslo_policy.policy:Enforcer.enforce']
@@ -176,6 +176,143 @@ def check_block(ctx, enforce_scope, override, flips=()):
         tree.cleanup()
 
 
+# -- policies whose check is a reference to ANOTHER registered policy with different scope types ---------------------
+# scope types of the policy that is enforced / of the policy its check string refers to (pairs with equal sets are skipped)
+ALIAS_OWN = [None, ['system'], ['domain'], ['project'], ['domain', 'project'], ['system', 'domain', 'project']]
+ALIAS_TGT = [None, ['system'], ['project'], ['system', 'domain']]
+ALIAS_MID = [['domain'], ['project', 'system'], None, ['system']]     # the middle link of a chain: differs from both ends
+# form -> (check string with the reference first, the same with the reference last, its negation, decision is negated)
+ALIAS_FORMS = {
+    'bare': ('rule:%s', 'rule:%s', 'not rule:%s', False),
+    'not': ('not rule:%s', 'not rule:%s', 'rule:%s', True),
+    'and': ('rule:%s and @', '@ and rule:%s', 'not rule:%s and @', False),
+    'or': ('rule:%s or !', '! or rule:%s', 'not rule:%s or !', False),
+    'chain': ('rule:%s', 'rule:%s', 'not rule:%s', False),            # refers to a policy that is itself a bare reference
+}
+ALIAS_WHERE = ('default', 'file')
+
+
+def check_alias_block(ctx, enforce_scope, where, only=None):
+    """Policies whose check string - the registered default (`where` = default) or the policy-file override of a
+    registered default that says the opposite (`where` = file) - refers to another registered policy declaring
+    DIFFERENT scope types (possibly none).  The gate is that of the policy being enforced (its own scope types, nothing
+    else); when it lets the request through, the decision is that of the check, i.e. of what the check of the referenced
+    policy decides - references inside a check string are part of the check and are not gated.
+    One enforcer per pair (own scope types, referenced scope types): the library walks over all registered policies on
+    every call, small enforcers keep the rows cheap.  `only` = [own index, referenced index] replays a single pair."""
+    for oi, own in enumerate(ALIAS_OWN):
+        for ti, tst in enumerate(ALIAS_TGT):
+            if own == tst or (only and list(only) != [oi, ti]):
+                continue
+            check_alias_pair(ctx, enforce_scope, where, oi, ti)
+
+
+def check_alias_pair(ctx, enforce_scope, where, oi, ti):
+    from oslo_policy import policy, _checks
+
+    class ScopedRef(_checks.BaseCheck):
+        # a check object that carries scope types and whose decision is that of a parsed check string
+        def __init__(self, text, st):
+            self.inner = policy.RuleDefault('by-object', text).check
+            self.scope_types = st
+
+        def __str__(self):
+            return 'scoped-ref'
+
+        def __call__(self, target, creds, enforcer, current_rule=None):
+            return self.inner(target, creds, enforcer, current_rule)
+
+    own, tst = ALIAS_OWN[oi], ALIAS_TGT[ti]
+    tree = files.Tree(dirs=())
+    try:
+        conf = tree.conf(policy_dirs=[], enforce_scope=enforce_scope)
+        enf = policy.Enforcer(conf)
+        filerules = {'unrelated': '@'}
+        pols = []
+        for ri, res in enumerate((True, False, 'role')):
+            text = {True: '@', False: '!', 'role': 'role:admin'}[res]
+            opposite = {True: '!', False: '@', 'role': 'not role:admin'}[res]
+            # the policy referred to; every other one is itself overridden in the file (its registered default
+            # then says the opposite), so that "the decision of the check" is that of its effective rule
+            tgt = 'tgt:%d_%d_%s' % (oi, ti, res)
+            if (oi + ti) % 2:
+                enf.register_default(policy.RuleDefault(tgt, opposite, scope_types=tst))
+                filerules[tgt] = text
+            else:
+                enf.register_default(policy.RuleDefault(tgt, text, scope_types=tst))
+            mid = 'mid:%d_%d_%s' % (oi, ti, res)
+            mst = [m for m in ALIAS_MID if m != own and m != tst][0]
+            enf.register_default(policy.RuleDefault(mid, 'rule:' + tgt, scope_types=mst))
+            for fi, (form, (first, last, negation, negated)) in enumerate(ALIAS_FORMS.items()):
+                idx = ((oi * len(ALIAS_TGT) + ti) * 3 + ri) * len(ALIAS_FORMS) + fi + 1
+                nm = 'ref:%s:%d_%d_%s' % (form, oi, ti, res)
+                ref = mid if form == 'chain' else tgt
+                eff = (first if idx % 2 else last) % ref
+                kind = idx % 3
+                default_text = (negation % ref) if where == 'file' else eff
+                if kind == 1:
+                    enf.register_default(policy.DocumentedRuleDefault(nm, default_text, 'doc', [{'path': '/p', 'method': 'GET'}],
+                                                                      scope_types=own))
+                    if where == 'file':
+                        filerules[nm] = eff
+                elif kind == 2 and where == 'file':
+                    # renamed policy, the operator's file still carries the reference under the OLD name
+                    dep = policy.DeprecatedRule('old:' + nm, default_text, deprecated_reason='r', deprecated_since='s')
+                    enf.register_default(policy.RuleDefault(nm, default_text, deprecated_rule=dep, scope_types=own))
+                    filerules['old:' + nm] = eff
+                else:
+                    enf.register_default(policy.RuleDefault(nm, default_text, scope_types=own))
+                    if where == 'file':
+                        filerules[nm] = eff
+                pols.append((nm, res, form, negated, eff, idx))
+        tree.write(os.path.basename(tree.main), filerules, 'json')
+        case = dict(alias=True, enforce_scope=enforce_scope, where=where, pair=[oi, ti])
+        row = None
+        for nm, res, form, negated, eff, idx in pols:
+            # role content is irrelevant to a constant check (the main table has that); both role sets where it matters
+            rolesets = ROLESETS if res == 'role' else [ROLESETS[idx % 2]]
+            obj = ScopedRef(eff, own)
+            for sysmode, dom, proj in itertools.product(['none', 'system', 'system_scope'], [0, 1], [0, 1]):
+                for rep, byobj in (('dict', False), ('dict', True), ('ctx', False)):
+                    if rep == 'ctx' and sysmode == 'system':
+                        continue
+                    for do_raise in (False, True):
+                        for roles in rolesets:
+                            row = dict(scope_types=own, referenced_scope_types=tst, referenced_allows=res, form=form, check=eff,
+                                       system=sysmode, domain=dom, project=proj, rep=rep, by_object=byobj, do_raise=do_raise,
+                                       enforce_scope=enforce_scope, where=where, roles=roles)
+                            val = check_value(res, roles)
+                            want = reference(own, (not val) if negated else val, sysmode, dom, proj, enforce_scope, do_raise)
+                            creds = make_creds(rep, sysmode, dom, proj, roles)
+                            rule = obj if byobj else nm
+                            try:
+                                got = enf.enforce(rule, {}, creds, do_raise=do_raise)
+                                got = True if got is True else False if got is False else repr(got)
+                            except Exception as e:
+                                got = type(e).__name__
+                            ctx.case(['alias', row], nontrivial=True, stratum='alias')
+                            ctx.count('reference_rows')
+                            tok = token_scope(sysmode, dom, proj)
+                            gate = bool(own) and enforce_scope and tok not in own
+                            if gate:
+                                ctx.count('reference_gate_denied_rows')
+                            if enforce_scope and gate != (bool(tst) and tok not in tst):
+                                # a gate taken from the referenced policy would decide this row differently
+                                ctx.count('reference_rows_where_referenced_scope_disagrees')
+                            ctx.observe('reference_outcomes', str(got))
+                            if got != want:
+                                if gate:
+                                    key = 'scope-mismatch-not-denied'
+                                elif got == 'InvalidScope':
+                                    key = 'scope-gate-fires-without-mismatch'
+                                else:
+                                    key = 'decision-differs-from-check'
+                                ctx.violation(key, case, {'row': row, 'policy': nm, 'expected': want, 'observed': got})
+        ctx.sample(row, 'alias')
+    finally:
+        tree.cleanup()
+
+
 OVERLAPS = {'quick': 12, 'thorough': 200}
 
 
@@ -236,6 +373,7 @@ def gen_overlap(ctx, i):
 
 
 def run(ctx):
+    ctx.reserve(0.8)          # the strata that come last (overlapping operations) keep a fifth of the wall budget
     blocks = [(es, ov, ()) for es, ov in itertools.product((True, False), (False, True))]
     # the option flipped on a living enforcer, both directions and back again
     blocks += [(True, False, (False, True)), (False, True, (True, False)), (False, False, (True,)), (True, True, (False,))]
@@ -248,6 +386,17 @@ def run(ctx):
             break
         check_block(ctx, es, ov, flips)
     ctx.stratum('table', exhaustive=done)
+    # policies whose check string refers to another registered policy with different scope types
+    done = True
+    for i, (es, where) in enumerate(itertools.product((True, False), ALIAS_WHERE)):
+        if not ctx.mine(len(blocks) + i):
+            continue
+        if ctx.expired():
+            done = False
+            break
+        check_alias_block(ctx, es, where)
+    ctx.stratum('alias', exhaustive=done)
+    ctx.release()
     # two overlapping requests, last (the line-level scheduler slows everything that runs after it is installed)
     from pv.mon import sched
     ctx.stratum('overlap', exhaustive=False)
@@ -263,4 +412,6 @@ def run(ctx):
 def replay(ctx, case):
     if case.get('overlap'):
         return check_overlap(ctx, case)
+    if case.get('alias'):
+        return check_alias_block(ctx, case['enforce_scope'], case['where'], case.get('pair'))
     check_block(ctx, case['enforce_scope'], case['override'], tuple(case.get('flips', ())))
